@@ -116,6 +116,15 @@ func c14Init() {
 		}
 		return reflect.ValueOf(c14Rec("jp2", s1, s2))
 	})
+	s.AddGlobalFunc("lazy", func(a jet.Arguments) reflect.Value {
+		return reflect.ValueOf(jet.RendererFunc(func(r *jet.Runtime) {
+			parts := []string{}
+			for i := 0; i < a.NumOfArguments(); i++ {
+				parts = append(parts, fmt.Sprint(a.Get(i).Interface()))
+			}
+			r.Write([]byte("[" + strings.Join(parts, ",") + "]"))
+		}))
+	})
 	// conversion targets
 	s.AddGlobal("cvint", func(i int) string { return fmt.Sprint(i) })
 	s.AddGlobal("cvfloat64", func(f float64) string { return fmt.Sprint(f) })
@@ -421,6 +430,23 @@ func c14Tables(v *c14Vec) Result {
 			sig["kind"] = "argeval"
 			return Result{Sig: sig, Observed: c14IdCalls, Expected: len(bi.Args), Key: "tables",
 				Detail: fmt.Sprintf("%s evaluated its %d argument expressions %d times", src2, len(bi.Args), c14IdCalls)}
+		}
+	}
+	// map() and slice() make a NEW collection every time: what one execution stores in its map is not in the next one's
+	for round := 0; round < 2; round++ {
+		out, err := c14Render(`{{ m := map() }}{{ m.seen = "yes" }}{{ len(m) }},{{ len(map()) }},{{ map() | len }},{{ len(slice()) }}`)
+		if err != nil || out != "1,0,0,0" {
+			return Result{Sig: map[string]interface{}{"kind": "builtin", "name": "map", "go": "fresh-collection"}, Observed: out, Expected: "1,0,0,0", Key: "tables",
+				Detail: fmt.Sprintf("execution %d: a map made by map() got one entry, then len of further map() / slice() calls: rendered %q (err %v), want 1,0,0,0", round, out, err)}
+		}
+	}
+	// a jet.Func may look at its arguments when the value it returned is rendered: they are still the arguments of that call
+	for _, e := range [][2]string{{`{{ "x" | lazy }}`, "[x]"}, {`{{ "x" | lazy: 7 }}`, "[x,7]"}, {`{{ lazy("x", 7) }}`, "[x,7]"}, {`{{ 7 | lazy("x", _) }}`, "[x,7]"},
+		{`{{ "a" | upper | lazy }}`, "[A]"}, {`{{ "a" | upper | lazy: 7 }}`, "[A,7]"}} {
+		out, err := c14Render(e[0])
+		if err != nil || out != e[1] {
+			return Result{Sig: map[string]interface{}{"kind": "lazy-arguments"}, Observed: out, Expected: e[1], Key: "tables",
+				Detail: fmt.Sprintf("%s rendered %q (err %v), want %q", e[0], out, err, e[1])}
 		}
 	}
 	// the same parsed template executed with the callee rebound (and rebound inside a loop):
